@@ -198,6 +198,7 @@ Section Step.
     In (from, tp) shifts8 -> In (k_func c) ops4 -> op_fun o ofZ (k_func c) = Some f ->
     lookupP from (ax_coords a) = Some din -> dhas din (dims t) = true ->
     lookupP tp (ax_coords a) = Some dout ->
+    words_known (complete_kwargs g (@ax_boundary A) (k_boundary c)) = true ->
     (forall lo hi,
         resolve_one dflt g (dnames (dims t))
                     (complete_kwargs g (@ax_boundary A) (k_boundary c))
@@ -209,7 +210,7 @@ Section Step.
       forall e, e dout < plen tp N ->
         get res e = spec_op f r cf (column t din e) from tp (Z.of_nat (e dout)).
   Proof.
-    intros Htbl Hwf Hsig Hshift Hfn Hop Hdin Hhas Hdout Hres HN Hlen1 Hsize Hds.
+    intros Htbl Hwf Hsig Hshift Hfn Hop Hdin Hhas Hdout Hknown Hres HN Hlen1 Hsize Hds.
     unfold dflt in *.
     destruct (table_ok_select tbl (k_func c) from tp Htbl Hfn Hshift) as (en & Hsel & Hok).
     unfold entry_ok in Hok.
@@ -234,7 +235,7 @@ Section Step.
                pad (zero o) g t (Some [(axn, (lo, hi))]) (k_boundary c) (k_fill c) = Ok padded /\
                dims padded = dreplace din (din, lo + plen from N + hi) (dims t) /\
                forall e, column padded din e = pad1 r cf lo hi (column t din e)).
-    { unfold pad. simpl forallb.
+    { unfold pad. rewrite Hknown. cbn [negb]. simpl forallb.
       destruct ((lo =? 0) && (hi =? 0) && true) eqn:Z0.
       - exists t. apply andb_true_iff in Z0. destruct Z0 as [Z0 _].
         apply andb_true_iff in Z0. destruct Z0 as [Z1 Z2].
